@@ -403,6 +403,23 @@ def check_E4(ctx, facts):
         ctx.bad('C10.E4', 'anchor', '', 'from_str not found')
         return
     found, seen = panics.reachable_panics(facts, cg, roots)
+    # rustc-emitted checks (shift amount, index bound, overflow flag) on operands that do not depend on the text: from_str interpreted on
+    # every path (pieces missing / unparsable / parsed to any number) — a check that saw only satisfied compile-time constants cannot fail
+    if any(f[2].startswith('assert:') for f in found):
+        try:
+            import bits_abs, absint as _ai
+            audit, npaths = bits_abs.from_str_assert_audit(facts, roots[0])
+            kept = []
+            for f in found:
+                b_, line_, what_ = f[0], f[1], f[2]
+                if what_.startswith('assert:') and audit.get((b_.file, line_, what_[7:])) == {'ok'}:
+                    ctx.ok('C10.E4', 'from_str|%s|%s|constant-operands' % (b_.name.replace('datacake_crdt::timestamp::', ''), what_), site(b_, line_),
+                           'this check sees only compile-time constants that satisfy it on all %d interpreted paths of from_str' % npaths)
+                    continue
+                kept.append(f)
+            found = kept
+        except (_ai.Unmodelled, _ai.NeedChoice, _ai.PanicPath, IndexError, TypeError, KeyError, AttributeError, ValueError) as e:
+            ctx.note = getattr(ctx, 'note', []) + ['C10.E4: from_str not interpreted for the audit of rustc checks (%s)' % e]
     if not found:
         ctx.ok('C10.E4', 'from_str|no-panic', site(roots[0]),
                'no may-panic site reachable from HLCTimestamp::from_str (%d workspace bodies followed)' % len(seen),
